@@ -162,7 +162,7 @@ theorem not_iterating_of_act {s : Sys} (inv : Inv s) {t : Nat} {a : Act} {rest :
     map, the iteration set and the per-thread range state are untouched -/
 theorem iter_frame {s s' : Sys} (inv : Inv s) {t : Nat} {a : Act} {rest : List Task}
     (hth : s.threads[t]? = some (.act a :: rest)) (hthr : s'.threads = s.threads.set t rest)
-    (hm : s'.m = s.m) (hi : s'.iterating = s.iterating) (hacc : s'.acc = s.acc) (hb : s'.began = s.began) :
+    (hm : s'.m = s.m ∨ s.iterating = []) (hi : s'.iterating = s.iterating) (hacc : s'.acc = s.acc) (hb : s'.began = s.began) :
     (∀ u ∈ s'.iterating, ∃ i r, s'.threads[u]? = some (.iterNext i :: r) ∧
         s'.acc u = (s'.m.take i).map (·.2) ∧ s'.began u = s'.m) ∧
     (∀ u i r, s'.threads[u]? = some (.iterNext i :: r) → u ∈ s'.iterating) := by
@@ -170,6 +170,10 @@ theorem iter_frame {s s' : Sys} (inv : Inv s) {t : Nat} {a : Act} {rest : List T
   constructor
   · intro u hu
     rw [hi] at hu
+    have hm : s'.m = s.m := by
+      rcases hm with h | h
+      · exact h
+      · rw [h] at hu; cases hu
     have hut : u ≠ t := fun e => hnot (e ▸ hu)
     obtain ⟨i, r, h1, h2, h3⟩ := inv.iterHead u hu
     refine ⟨i, r, ?_, ?_, ?_⟩
@@ -187,5 +191,327 @@ theorem iter_frame {s s' : Sys} (inv : Inv s) {t : Nat} {a : Act} {rest : List T
       obtain ⟨a', ha'⟩ := this; cases ha'
     · rw [get_set_other hut] at hu
       exact inv.iterConv u i r hu
+
+
+/-- all actions that neither start, advance nor finish a range -/
+theorem inv_plain_step {s s' : Sys} (inv : Inv s) {t : Nat} {a : Act} {rest : List Task}
+    (hth : s.threads[t]? = some (.act a :: rest)) (hthr : s'.threads = s.threads.set t rest)
+    (hm : s'.m = s.m ∨ s.iterating = []) (hi : s'.iterating = s.iterating) (hacc : s'.acc = s.acc)
+    (hb : s'.began = s.began) (houts : s'.outs = s.outs) (hrace : s'.race = false) (hfatal : s'.fatal = false)
+    (hexcl : s'.writer.isSome = true → s'.readers = []) (hnd : s'.readers.Nodup)
+    (hother : ∀ u, u ≠ t → heldOf s' u = heldOf s u) (hself : wlT (heldOf s' t) rest = true) : Inv s' where
+  excl := hexcl
+  rnodup := hnd
+  inodup := by rw [hi]; exact inv.inodup
+  wlAll := wlAll_step inv hth hthr hother hself
+  clean := ⟨hrace, hfatal⟩
+  iterHead := (iter_frame inv hth hthr hm hi hacc hb).1
+  iterConv := (iter_frame inv hth hthr hm hi hacc hb).2
+  restActs := restActs_step inv hth hthr (Or.inl rfl)
+  outsOK := by rw [houts]; exact inv.outsOK
+
+theorem heldOf_eq_w {s : Sys} {t : Nat} (h : s.writer = some t) : heldOf s t = .w := by simp [heldOf, h]
+
+theorem stepTask_inv {s s' : Sys} {t : Nat} {task : Task} {rest : List Task} (inv : Inv s)
+    (hth : s.threads[t]? = some (task :: rest)) (hs : stepTask s t task rest = some s') : Inv s' := by
+  obtain ⟨h', haft, hwl⟩ := wlT_cons (inv.wlAll t _ hth)
+  cases task with
+  | act a =>
+    have hnot := not_iterating_of_act inv hth
+    cases a with
+    | lock =>
+      have hfree : heldOf s t = .free ∧ h' = .w := by
+        cases hh : heldOf s t <;> simp [Held.afterT, Held.after, hh] at haft <;> simp [haft]
+      obtain ⟨_, rfl⟩ := hfree
+      simp only [stepTask] at hs
+      split at hs
+      · rename_i hc
+        injection hs with hs; subst hs
+        simp only [Bool.and_eq_true, Option.isNone_iff_eq_none, List.isEmpty_iff] at hc
+        refine inv_plain_step inv hth rfl (Or.inl rfl) rfl rfl rfl rfl inv.clean.1 inv.clean.2
+          (fun _ => hc.2) inv.rnodup ?_ ?_
+        · intro u hut
+          have h1 : ¬ (some t = some u) := fun e => hut (Option.some.inj e).symm
+          simp [heldOf, hc.1, h1]
+        · rw [heldOf_eq_w rfl]; exact hwl
+      · cases hs
+    | unlock =>
+      have hw : heldOf s t = .w ∧ h' = .free := by
+        cases hh : heldOf s t <;> simp [Held.afterT, Held.after, hh] at haft <;> simp [haft]
+      obtain ⟨hw, rfl⟩ := hw
+      have hwr := heldOf_w hw
+      have hre : s.readers = [] := inv.excl (by rw [hwr]; rfl)
+      simp only [stepTask, hwr, beq_self_eq_true, if_true] at hs
+      injection hs with hs; subst hs
+      refine inv_plain_step inv hth rfl (Or.inl rfl) rfl rfl rfl rfl inv.clean.1 inv.clean.2
+        (fun h => by cases h) inv.rnodup ?_ ?_
+      · intro u hut
+        have h1 : ¬ (some t = some u) := fun e => hut (Option.some.inj e).symm
+        simp [heldOf, hwr, h1]
+      · simp only [heldOf, hre]; simpa using hwl
+    | rlock =>
+      have hfree : heldOf s t = .free ∧ h' = .r := by
+        cases hh : heldOf s t <;> simp [Held.afterT, Held.after, hh] at haft <;> simp [haft]
+      obtain ⟨hf, rfl⟩ := hfree
+      simp only [stepTask] at hs
+      split at hs
+      · rename_i hc
+        injection hs with hs; subst hs
+        simp only [Option.isNone_iff_eq_none] at hc
+        have hn := heldOf_none hf
+        refine inv_plain_step inv hth rfl (Or.inl rfl) rfl rfl rfl rfl inv.clean.1 inv.clean.2
+          (fun h => by simp [hc] at h) (List.nodup_cons.mpr ⟨hn.2, inv.rnodup⟩) ?_ ?_
+        · intro u hut
+          simp [heldOf, hc, hut]
+        · simp only [heldOf, hc]; simpa using hwl
+      · cases hs
+    | runlock =>
+      have hr : heldOf s t = .r ∧ h' = .free := by
+        cases hh : heldOf s t <;> simp [Held.afterT, Held.after, hh] at haft <;> simp [haft]
+      obtain ⟨hr, rfl⟩ := hr
+      obtain ⟨hnw, hin⟩ := heldOf_r hr
+      have hc : s.readers.contains t = true := List.contains_iff_mem.mpr hin
+      simp only [stepTask, hc, if_true] at hs
+      injection hs with hs; subst hs
+      have hwn : s.writer = none := by
+        cases hw : s.writer with
+        | none => rfl
+        | some w => have := inv.excl (by rw [hw]; rfl); rw [this] at hin; cases hin
+      refine inv_plain_step inv hth rfl (Or.inl rfl) rfl rfl rfl rfl inv.clean.1 inv.clean.2
+        (fun h => by simp [hwn] at h) (inv.rnodup.erase t) ?_ ?_
+      · intro u hut
+        simp only [heldOf, List.mem_erase_of_ne hut]
+      · have : t ∉ s.readers.erase t := fun h => ((inv.rnodup.mem_erase_iff).mp h).1 rfl
+        simp only [heldOf, hwn, this]; simpa using hwl
+    | put k v =>
+      have hw : heldOf s t = .w ∧ h' = .w := by
+        cases hh : heldOf s t <;> simp [Held.afterT, Held.after, hh] at haft <;> simp [haft]
+      obtain ⟨hw, rfl⟩ := hw
+      have hwr := heldOf_w hw
+      have hni := inv.no_iter_of_writer hwr hnot
+      simp only [stepTask] at hs
+      injection hs with hs; subst hs
+      refine inv_plain_step inv hth rfl (Or.inr hni) rfl rfl rfl rfl ?_ ?_ inv.excl inv.rnodup
+        (fun u _ => heldOf_congr rfl rfl u) ?_
+      · simp [inv.clean.1, Sys.canWrite, hwr]
+      · simp [inv.clean.2, hni]
+      · change wlT (heldOf s t) rest = true; rw [hw]; exact hwl
+    | del k =>
+      have hw : heldOf s t = .w ∧ h' = .w := by
+        cases hh : heldOf s t <;> simp [Held.afterT, Held.after, hh] at haft <;> simp [haft]
+      obtain ⟨hw, rfl⟩ := hw
+      have hwr := heldOf_w hw
+      have hni := inv.no_iter_of_writer hwr hnot
+      simp only [stepTask] at hs
+      injection hs with hs; subst hs
+      refine inv_plain_step inv hth rfl (Or.inr hni) rfl rfl rfl rfl ?_ ?_ inv.excl inv.rnodup
+        (fun u _ => heldOf_congr rfl rfl u) ?_
+      · simp [inv.clean.1, Sys.canWrite, hwr]
+      · simp [inv.clean.2, hni]
+      · change wlT (heldOf s t) rest = true; rw [hw]; exact hwl
+    | size =>
+      have hh : heldOf s t ≠ .free ∧ h' = heldOf s t := by
+        cases hh : heldOf s t <;> simp [Held.afterT, Held.after, hh] at haft <;>
+          (subst haft; exact ⟨by decide, rfl⟩)
+      obtain ⟨hne, rfl⟩ := hh
+      simp only [stepTask] at hs
+      injection hs with hs; subst hs
+      refine inv_plain_step inv hth rfl (Or.inl rfl) rfl rfl rfl rfl ?_ inv.clean.2 inv.excl inv.rnodup
+        (fun u _ => heldOf_congr rfl rfl u) ?_
+      · simp [inv.clean.1, canRead_of_held hne]
+      · change wlT (heldOf s t) rest = true; exact hwl
+    | use =>
+      have hh : h' = heldOf s t := by
+        cases hh : heldOf s t <;> simp [Held.afterT, Held.after, hh] at haft <;> simp [haft]
+      subst hh
+      simp only [stepTask] at hs
+      injection hs with hs; subst hs
+      refine inv_plain_step inv hth rfl (Or.inl rfl) rfl rfl rfl rfl inv.clean.1 inv.clean.2 inv.excl inv.rnodup
+        (fun u _ => heldOf_congr rfl rfl u) ?_
+      change wlT (heldOf s t) rest = true; exact hwl
+    | range =>
+      have hh : heldOf s t ≠ .free ∧ h' = heldOf s t := by
+        cases hh : heldOf s t <;> simp [Held.afterT, Held.after, hh] at haft <;>
+          (subst haft; exact ⟨by decide, rfl⟩)
+      obtain ⟨hne, rfl⟩ := hh
+      simp only [stepTask] at hs
+      injection hs with hs; subst hs
+      have hself : wlT (heldOf s t) (.iterNext 0 :: rest) = true := by
+        simp only [wlT]
+        cases hh : heldOf s t with
+        | free => exact absurd hh hne
+        | r => simp only [Held.afterT]; rw [hh] at hwl; exact hwl
+        | w => simp only [Held.afterT]; rw [hh] at hwl; exact hwl
+      exact {
+        excl := inv.excl
+        rnodup := inv.rnodup
+        inodup := List.nodup_cons.mpr ⟨hnot, inv.inodup⟩
+        wlAll := wlAll_step inv hth rfl (fun u _ => heldOf_congr rfl rfl u)
+                   (by change wlT (heldOf s t) _ = true; exact hself)
+        clean := ⟨by simp [inv.clean.1, canRead_of_held hne], inv.clean.2⟩
+        iterHead := by
+          intro u hu
+          rcases List.mem_cons.mp hu with hu | hu
+          · subst hu
+            exact ⟨0, rest, get_set_self hth, by simp [updF], by simp [updF]⟩
+          · have hut : u ≠ t := fun e => hnot (e ▸ hu)
+            obtain ⟨i, r, h1, h2, h3⟩ := inv.iterHead u hu
+            refine ⟨i, r, ?_, ?_, ?_⟩
+            · show (s.threads.set t _)[u]? = _
+              rw [get_set_other hut]; exact h1
+            · show updF s.acc t [] u = _
+              simp only [updF, hut, if_false]; exact h2
+            · show updF s.began t s.m u = _
+              simp only [updF, hut, if_false]; exact h3
+        iterConv := by
+          intro u i r hu
+          by_cases hut : u = t
+          · subst hut; exact List.mem_cons_self ..
+          · have hu' : (s.threads.set t (Task.iterNext 0 :: rest))[u]? = some (Task.iterNext i :: r) := hu
+            rw [get_set_other hut] at hu'
+            exact List.mem_cons_of_mem _ (inv.iterConv u i r hu')
+        restActs := restActs_step inv hth rfl (Or.inr ⟨_, rfl⟩)
+        outsOK := inv.outsOK }
+  | iterNext i =>
+    have hh : heldOf s t ≠ .free ∧ h' = heldOf s t := by
+      cases hh : heldOf s t <;> simp [Held.afterT, hh] at haft <;>
+        (subst haft; exact ⟨by decide, rfl⟩)
+    obtain ⟨hne, rfl⟩ := hh
+    have hin : t ∈ s.iterating := inv.iterConv t i rest hth
+    obtain ⟨i', r', h1, hacc, hbeg⟩ := inv.iterHead t hin
+    rw [hth] at h1; injection h1 with h1; injection h1 with h1 h1r; injection h1 with h1; subst h1
+    simp only [stepTask] at hs
+    cases hmi : s.m[i]? with
+    | some e =>
+      rw [hmi] at hs; injection hs with hs; subst hs
+      have hself : wlT (heldOf s t) (.iterNext (i + 1) :: rest) = true := by
+        simp only [wlT]
+        cases hh : heldOf s t with
+        | free => exact absurd hh hne
+        | r => simp only [Held.afterT]; rw [hh] at hwl; exact hwl
+        | w => simp only [Held.afterT]; rw [hh] at hwl; exact hwl
+      exact {
+        excl := inv.excl
+        rnodup := inv.rnodup
+        inodup := inv.inodup
+        wlAll := wlAll_step inv hth rfl (fun u _ => heldOf_congr rfl rfl u)
+                   (by change wlT (heldOf s t) _ = true; exact hself)
+        clean := ⟨by simp [inv.clean.1, canRead_of_held hne], inv.clean.2⟩
+        iterHead := by
+          intro u hu
+          by_cases hut : u = t
+          · subst hut
+            refine ⟨i + 1, rest, get_set_self hth, ?_, hbeg⟩
+            show updF s.acc u (s.acc u ++ [e.2]) u = _
+            simp only [updF, if_true, hacc, List.take_add_one, hmi, List.map_append]
+            rfl
+          · obtain ⟨j, r, g1, g2, g3⟩ := inv.iterHead u hu
+            refine ⟨j, r, ?_, ?_, g3⟩
+            · show (s.threads.set t _)[u]? = _
+              rw [get_set_other hut]; exact g1
+            · show updF s.acc t _ u = _
+              simp only [updF, hut, if_false]; exact g2
+        iterConv := by
+          intro u j r hu
+          by_cases hut : u = t
+          · subst hut; exact hin
+          · have hu' : (s.threads.set t (Task.iterNext (i + 1) :: rest))[u]? = some (Task.iterNext j :: r) := hu
+            rw [get_set_other hut] at hu'
+            exact inv.iterConv u j r hu'
+        restActs := restActs_step inv hth rfl (Or.inr ⟨_, rfl⟩)
+        outsOK := inv.outsOK }
+    | none =>
+      rw [hmi] at hs; injection hs with hs; subst hs
+      have hlen : s.m.length ≤ i := List.getElem?_eq_none_iff.mp hmi
+      exact {
+        excl := inv.excl
+        rnodup := inv.rnodup
+        inodup := inv.inodup.erase t
+        wlAll := wlAll_step inv hth rfl (fun u _ => heldOf_congr rfl rfl u)
+                   (by change wlT (heldOf s t) _ = true; exact hwl)
+        clean := ⟨by simp [inv.clean.1, canRead_of_held hne], inv.clean.2⟩
+        iterHead := by
+          intro u hu
+          have hu' := (inv.inodup.mem_erase_iff).mp hu
+          obtain ⟨j, r, g1, g2, g3⟩ := inv.iterHead u hu'.2
+          refine ⟨j, r, ?_, g2, g3⟩
+          show (s.threads.set t _)[u]? = _
+          rw [get_set_other hu'.1]; exact g1
+        iterConv := by
+          intro u j r hu
+          have hu0 : (s.threads.set t rest)[u]? = some (Task.iterNext j :: r) := hu
+          by_cases hut : u = t
+          · subst hut
+            rw [get_set_self hth] at hu0
+            injection hu0 with hu0
+            have := inv.restActs u _ _ hth (.iterNext j) (by rw [hu0]; exact List.mem_cons_self ..)
+            obtain ⟨a', ha'⟩ := this; cases ha'
+          · rw [get_set_other hut] at hu0
+            exact (inv.inodup.mem_erase_iff).mpr ⟨hut, inv.iterConv u j r hu0⟩
+        restActs := restActs_step inv hth rfl (Or.inl rfl)
+        outsOK := by
+          intro o ho
+          rcases List.mem_append.mp ho with ho | ho
+          · exact inv.outsOK o ho
+          · simp only [List.mem_singleton] at ho
+            subst ho
+            show s.acc t = (s.began t).vals
+            rw [hacc, hbeg, List.take_of_length_le hlen]; rfl }
+
+theorem step_inv {s s' : Sys} {t : Nat} (inv : Inv s) (hs : step s t = some s') : Inv s' := by
+  unfold step at hs
+  split at hs
+  · rename_i task rest hth
+    exact stepTask_inv inv hth hs
+  · cases hs
+
+theorem exec_inv {s s' : Sys} (sched : List Nat) (inv : Inv s) (hs : exec s sched = some s') : Inv s' := by
+  induction sched generalizing s with
+  | nil => simp only [exec] at hs; injection hs with hs; exact hs ▸ inv
+  | cons t ts ih =>
+    simp only [exec] at hs
+    cases hst : step s t with
+    | none => rw [hst] at hs; cases hs
+    | some s1 => rw [hst] at hs; exact ih (step_inv inv hst) hs
+
+theorem mkSys_inv (m0 : GMap) (progs : List (List Act)) (hwl : ∀ p ∈ progs, wellLocked p = true) :
+    Inv (mkSys m0 progs) where
+  excl := by intro h; rfl
+  rnodup := List.nodup_nil
+  inodup := List.nodup_nil
+  wlAll := by
+    intro t ts hts
+    simp only [mkSys, List.getElem?_map] at hts
+    cases hp : progs[t]? with
+    | none => rw [hp] at hts; cases hts
+    | some p =>
+      rw [hp] at hts; injection hts with hts; subst hts
+      have : heldOf (mkSys m0 progs) t = .free := by simp [heldOf, mkSys]
+      rw [this, wlT_map_act]
+      exact hwl p (List.mem_of_getElem? hp)
+  clean := ⟨rfl, rfl⟩
+  iterHead := by intro t ht; cases ht
+  iterConv := by
+    intro t i rest hts
+    simp only [mkSys, List.getElem?_map] at hts
+    cases hp : progs[t]? with
+    | none => rw [hp] at hts; cases hts
+    | some p =>
+      rw [hp] at hts; injection hts with hts
+      cases p with
+      | nil => cases hts
+      | cons a r => injection hts with h1 _; cases h1
+  restActs := by
+    intro t task rest hts x hx
+    simp only [mkSys, List.getElem?_map] at hts
+    cases hp : progs[t]? with
+    | none => rw [hp] at hts; cases hts
+    | some p =>
+      rw [hp] at hts; injection hts with hts
+      have hts' : p.map Task.act = task :: rest := hts
+      have : x ∈ p.map Task.act := by rw [hts']; exact List.mem_cons_of_mem _ hx
+      obtain ⟨a, _, ha⟩ := List.mem_map.mp this
+      exact ⟨a, ha.symm⟩
+  outsOK := by intro o ho; cases ho
 
 end Gate.C12
